@@ -119,7 +119,9 @@ func eval(fm *Frame, opts evalOpts, code string) error {
 	// The stacktrace already contains the line that calls "eval", so we pass
 	// nil as the second argument.
 	newNs, exc := fm.Eval(src, nil, ns)
-	if opts.OnEnd != nil {
+	// If the code failed to parse or compile, it was never evaluated and there
+	// is no new namespace to pass to the callback.
+	if opts.OnEnd != nil && newNs != nil {
 		newFm := fm.Fork()
 		errCb := opts.OnEnd.Call(newFm, []any{newNs}, NoOpts)
 		if exc == nil {
